@@ -36,14 +36,18 @@ def run_procout(ctx):
         elif f[0] == "case":
             cases.append((f[1], int(f[2]), json.loads(f[3]) if f[3] != "null" else {}))
     how = "harness/overlay/root/zz_verif_c18_procout_test.go, VERIF_SEED=%d VERIF_TIER=%s (VERIF_C18_ONLY=<scenario name> plays one); TOOL = the test binary itself: `TOOL verif-c18-tool tag:mode:n_out:n_err:block_bytes:cut_bytes:tail:fail`" % (ctx.seed, ctx.tier)
-    reported = {"process": 0, "shell": 0}
+    reported = {}
     for (cls, scen), texts in by_scen.items():
-        if reported[cls] >= 3:
+        if reported.get(cls, 0) >= 3:
             continue
-        reported[cls] += 1
-        # the processes of ONE shell command (pipeline, background job) each get a copier of their own from the shell
-        # interpreter: a separate class, so that it can be told apart from what os.exec / a single command do
-        key = "shell-concurrent-writers" if cls == "shell" else None
+        reported[cls] = reported.get(cls, 0) + 1
+        # Class "shell-glued" (decided by the harness): the body is ONE sh.exec command with two processes running at the same
+        # time (pipeline, background job) -- each gets a copier of its own from the shell interpreter --, AND the only thing
+        # wrong is that pieces of the two processes' output are joined into one line where the pieces end (every byte of every
+        # producer delivered once and in order, as many lines as newlines, never two deliveries in flight).  Only that carries
+        # the known-finding key; lost / repeated / foreign bytes, concurrent deliveries, a crash, and anything at all in a
+        # body with one process at a time (os.exec, a single shell command, alternating or consecutive producers) do not.
+        key = "shell-concurrent-writers" if cls == "shell-glued" else None
         ctx.violation("implementation violates %s" % texts[0], {"oracle": texts[:6], "scenario": json.loads(scen), "how": how}, key=key)
     lines = sum(c[2].get("lines", 0) for c in cases)
     ctx.coverage["correspondence"]["process_output"] = {
